@@ -6,8 +6,11 @@ use crate::core::{guard, Ctx, Violation};
 use prio::codec::{CodecError, Encode};
 
 /// Allocation allowed for decoding `len` bytes with a decoding parameter implying `param` bytes.
+/// 64 x (bytes presented + size the decoding PARAMETER implies) + 64 KiB. Honest decoders stay far
+/// below it (they allocate a small multiple of what they consume); a count taken from the wire and
+/// trusted for pre-allocation exceeds it as soon as it is a few thousand elements off.
 pub fn alloc_bound(len: usize, param: usize) -> u64 {
-    4096u64 * (len as u64 + param as u64) + (1 << 20)
+    64u64 * (len as u64 + param as u64) + (1 << 16)
 }
 
 /// Decode through the monitors. `reenc` re-encodes an accepted value; `hint` is its advertised length.
